@@ -196,7 +196,8 @@ class Check(DiffCheck):
     id = 'C04'
     needs_libphoton = True
     coq_dirs = ['Base', 'C04', 'Sched']
-    coq_targets = ['C04/C04_Proofs.vo']
+    coq_targets = ['C04/C04_HeapProofs.vo', 'Sched/Invariant.vo', 'Sched/Effects.vo', 'Sched/Example.vo', 'C04/C04_Inv.vo', 'C04/C04_Good.vo',
+                   'C04/C04_Step.vo', 'C04/C04_Step2.vo', 'C04/C04_Proofs.vo', 'C04/C04_Proofs2.vo']
     properties_v = 'C04/C04_Properties.v'
     extract_v = 'C04/C04_Extract.v'
     model_module = 'C04_model'
